@@ -79,11 +79,30 @@ func (w *AllocWatch) Delta() []BigAlloc {
 // by library code: the first frame that is not part of the runtime's allocator
 // must be a library function ("" otherwise, e.g. a caller-supplied io.Writer
 // growing its own buffer underneath Reader.WriteTo).
+//
+// One exception: a *reservation* (`Grow`) asked for by library code on the caller's
+// bytes.Buffer / strings.Builder is the library's decision, not growth with the data
+// written; the frames of that reservation are skipped and the caller of Grow decides.
 func libSite(pcs []uintptr) string {
 	fr := runtime.CallersFrames(pcs)
+	inGrow := false
 	for {
 		f, more := fr.Next()
+		switch f.Function {
+		case "bytes.growSlice", "bytes.(*Buffer).grow", "strings.(*Builder).grow", "slices.Grow[...]", "bytes.growSlice.func1":
+			if more {
+				continue
+			}
+		case "bytes.(*Buffer).Grow", "strings.(*Builder).Grow":
+			inGrow = true
+			if more {
+				continue
+			}
+		}
 		if f.Function != "" && !strings.HasPrefix(f.Function, "runtime.") {
+			if !inGrow && (strings.HasPrefix(f.Function, "bytes.") || strings.HasPrefix(f.Function, "strings.")) {
+				return "" // the buffer grows underneath Write / ReadFrom: the caller's memory, proportional to the data
+			}
 			if strings.Contains(f.Function, "pierrec/lz4") {
 				fn := f.Function
 				if k := strings.LastIndex(fn, "/"); k >= 0 {
